@@ -33,6 +33,53 @@ pub fn requested_targets(e: &E) -> Vec<(Dest, Option<char>)> {
     out
 }
 
+/// The cheap part of the oracle, for very large expressions: the program reads, the table has one
+/// entry per requested (destination, terminator) pair, every key of the table is a character
+/// (it is written into the program as one) and occurs in the program as a character literal.
+pub fn judge_tags(tree: &E) -> Verdict {
+    let comp = match policy::compile_tree(tree, None, "/") {
+        CompileOutcome::Ok(c) => c,
+        CompileOutcome::Err(e) => return Verdict::Fail(format!("compile failed: {e}")),
+        CompileOutcome::Panic(p) => return Verdict::Fail(format!("compile panicked: {p}")),
+    };
+    let Some(map) = &comp.io_map else { return Verdict::Fail("framed output requested, but there is no destination table".into()) };
+    for k in map.keys() {
+        if char::from_u32(*k).is_none() {
+            return Verdict::Fail(format!("tag {k} is not a character"));
+        }
+    }
+    let forms = match crate::sx::read_all(&comp.text) {
+        Ok(f) => f,
+        Err(e) => return Verdict::Fail(format!("the emitted program does not read: {e}")),
+    };
+    let mut chars = std::collections::BTreeSet::new();
+    for f in &forms {
+        f.walk(&mut |n| {
+            if let crate::sx::Sx::Char(c) = n {
+                chars.insert(*c as u32);
+            }
+        });
+    }
+    let mut want: Vec<(Dest, Option<char>)> = vec![];
+    for t in requested_targets(tree) {
+        if !want.contains(&t) {
+            want.push(t);
+        }
+    }
+    if map.len() != want.len() {
+        return Verdict::Fail(format!("the table has {} entries for {} requested (destination, terminator) pairs", map.len(), want.len()));
+    }
+    for (k, v) in map {
+        if !chars.contains(k) {
+            return Verdict::Fail(format!("key {k} of the table is no character literal of the program"));
+        }
+        if !want.contains(v) {
+            return Verdict::Fail(format!("table entry {k} -> {v:?} was not requested"));
+        }
+    }
+    Verdict::Pass { nt: true, class: "very large expression: program and table inspected" }
+}
+
 pub fn judge(tree: &E) -> Verdict {
     judge_with_threads(tree, None)
 }
@@ -138,6 +185,24 @@ fn case_json(t: &E) -> Value {
     json!({"kind": "tree", "tree": term::encode_expr(t), "text": crate::render::canonical(t)})
 }
 pub fn replay(case: &Value) -> Result<Verdict, String> {
+    if case["kind"] == "matchers-before" && case.get("tree").is_none() {
+        // (the tree has tens of thousands of leaves: rebuilt from its description)
+        let m = case["matchers"].as_u64().ok_or("matchers")? as usize;
+        fn bal(l: &[E]) -> E {
+            if l.len() == 1 {
+                return l[0].clone();
+            }
+            let (a, b) = l.split_at(l.len() / 2);
+            E::or(bal(a), bal(b))
+        }
+        let names: Vec<E> = (0..m).map(|i| E::T(Tst::Name(format!("p{i}")))).collect();
+        let mut e = bal(&names);
+        let tail = if case["tail"].as_u64() == Some(1) { vec![Act::Print0] } else { vec![Act::FPrint("a".into()), Act::FPrint0("b".into()), Act::FPrint("c".into())] };
+        for a in tail {
+            e = E::and(e, E::A(a));
+        }
+        return Ok(judge(&e));
+    }
     Ok(judge_with_threads(&term::decode_expr(case["tree"].as_str().ok_or("no tree")?)?, case["threads_option"].as_u64().map(|t| t as u32)))
 }
 
@@ -296,6 +361,31 @@ pub fn run(ctx: &Ctx) -> Report {
             }
             let v = judge(&e);
             stm.record(&v, stable_hash(&e), true, || json!({"kind": "matchers-before", "matchers": m, "tree": term::encode_expr(&e)}));
+        }
+    }
+    // tens of thousands of distinct matchers before the first printer: the printer number, which is
+    // written into the program as a character, then passes 0xD800..0xDFFF (no characters there)
+    fn balanced_or(leaves: &[E]) -> E {
+        if leaves.len() == 1 {
+            return leaves[0].clone();
+        }
+        let (l, r) = leaves.split_at(leaves.len() / 2);
+        E::or(balanced_or(l), balanced_or(r))
+    }
+    for m in ctx.tier.pick(vec![27_647usize, 28_670], vec![27_646usize, 27_647, 27_648, 28_000, 28_670, 28_671]) {
+        let names: Vec<E> = (0..m).map(|i| E::T(Tst::Name(format!("p{i}")))).collect();
+        for tail in [vec![Act::Print0], vec![Act::FPrint("a".into()), Act::FPrint0("b".into()), Act::FPrint("c".into())]] {
+            let mut e = balanced_or(&names);
+            for a in &tail {
+                e = E::and(e, E::A(a.clone()));
+            }
+            // (quick tier: the program and the table are inspected, not executed - a policy with
+            // tens of thousands of matchers takes the runtime model half a minute)
+            let v = if ctx.tier == Tier::Quick { judge_tags(&e) } else { judge(&e) };
+            stm.record(&v, stable_hash(&(m, &tail)), true, || json!({"kind": "matchers-before", "matchers": m, "actions": format!("{tail:?}")}));
+            if let Verdict::Fail(_) = v {
+                stm.failures.last_mut().map(|f| f.case = json!({"kind": "matchers-before", "matchers": m, "tail": tail.len()}));
+            }
         }
     }
     stm.samples.truncate(1);
